@@ -61,7 +61,7 @@ func H_C13_idem() {
 // history equals the validator's (already settled) history and a claim pays nothing.
 func H_C13_noretro_delegate() {
 	id := "C13.noretro.delegate"
-	st := Build([]Pos{{1, 0, 0}}, Opts{Rewards: true, BigPool: true})
+	st := Build([]Pos{{1, 0, 0}}, Opts{Rewards: true, BigPool: true, Hints: true})
 	e := st.E
 	amt := nd.IntRange("amt", "1", Pow30)
 	var err error
@@ -93,10 +93,10 @@ func H_C13_noretro_redelegate() {
 	} else {
 		nd.Tag("redelegate-new-position")
 	}
-	st := Build(ps, Opts{Rewards: true, BigPool: true})
+	st := Build(ps, Opts{Rewards: true, BigPool: true, StrictRewards: true, Hints: true})
 	e := st.E
-	hintUnitPrices(st)
 	amt := nd.IntRange("amt", "1", Pow30)
+	nd.Hint(amt.Equal(math.NewInt(50)))
 	var err error
 	if Caught(func() {
 		_, err = e.K.Redelegate(e.Ctx, Dels[0], AV(e, Vals[0]), AV(e, Vals[1]), sdk.NewCoin(Denoms[0], amt))
